@@ -40,7 +40,7 @@ def make_spec(rng, shape="std"):
     numbers of their own; the status endpoint has a number no other IN endpoint has (it may share it with an
     OUT endpoint)."""
     nums = list(range(1, 16))
-    rng.shuffle(nums)
+    nums = rng.shuffle(nums)
     a, b, c, d = nums[:4]
     mps = lambda: rng.choice([4, 8, 8, 16, 64])
     m_out1, m_out2 = mps(), mps()
@@ -48,7 +48,7 @@ def make_spec(rng, shape="std"):
            ["out", a, m_out1, rng.choice([2 * m_out1 - 1, 2 * m_out1 - 1, m_out1 + 3, 3 * m_out1])],
            ["out", c, m_out2],
            ["sig", rng.choice([d, c]), rng.choice([8, 16, 16, 24, 13])]]
-    rng.shuffle(eps)
+    eps = rng.shuffle(eps)
     return {"shape": shape, "desc": DH.descriptor_table(shape, rng), "eps": eps, "handlers": []}
 
 
